@@ -265,7 +265,12 @@ def run_impl(case, scratch=None):
         hist = case.get("hist")
         if hist and rng.random() < 0.3:
             do(gen_junk(rng, run, before_start=True))
-        rec = do({"op": "start"})
+        if case.get("start_by_event"):
+            # the order is started through the public fire_event() with the internal start event (finding K8): only
+            # for cases that are compared with the net layer of the model and not judged by the monitors
+            rec = do({"op": "junk", "junk": "start_event"})
+        else:
+            rec = do({"op": "start"})
         n = 0
         crashed = bool(rec.get("exc"))
         live = case.get("witness") == "live" and witness is not None and witness.s is not None
